@@ -82,7 +82,7 @@ class MetaRunner(object):
     def stop(self):
         """Stop all runners"""
         self._logger.debug("stop all runners")
-        for runner in self._runners.values():
+        for runner in list(self._runners.values()):
             runner.stop()
 
     async def _manage_runners(self):
@@ -106,6 +106,9 @@ class MetaRunner(object):
             raise
         finally:
             self.running.clear()
+            # the runners are closed: a later registration is queued for the next run
+            # instead of being handed to a dead runner
+            self._runners.clear()
             point("mr.running.clear")
 
     async def _launch_runners(self) -> List[asyncio.Task]:
